@@ -96,8 +96,12 @@ func (w *World) resolveType(s string, pkg *types.Package) (types.Type, string) {
 	if strings.HasPrefix(s, "Map[") && strings.HasSuffix(s, "]") {
 		parts := splitTop(s[4:len(s)-1], ',')
 		if len(parts) == 2 {
-			_, k := w.resolveType(parts[0], pkg)
-			_, vv := w.resolveType(parts[1], pkg)
+			kt, k := w.resolveType(parts[0], pkg)
+			vt, vv := w.resolveType(parts[1], pkg)
+			if kt != nil && vt != nil {
+				// spec map: a Go map type is used only to carry the element type; the sort is an SMT array
+				return types.NewMap(kt, vt), "SPECMAP"
+			}
 			return nil, fmt.Sprintf("(Array %s %s)", k, vv)
 		}
 	}
@@ -133,6 +137,10 @@ func (w *World) resolveType(s string, pkg *types.Package) (types.Type, string) {
 
 func (v *FnVC) sortOfSpecType(s string, pkg *types.Package) (types.Type, string) {
 	t, so := v.W.resolveType(s, pkg)
+	if so == "SPECMAP" {
+		m := t.(*types.Map)
+		return t, fmt.Sprintf("(Array %s %s)", v.S.SortOf(m.Key()), v.S.SortOf(m.Elem()))
+	}
 	if t != nil {
 		return t, v.S.SortOf(t)
 	}
@@ -559,9 +567,13 @@ func (v *FnVC) indexTerm(a, i Term, env *Env) Term {
 	if a.Sort == "Str" {
 		return Term{S: fmt.Sprintf("(at_s %s %s)", a.S, i.S), Sort: "Int", T: types.Typ[types.Uint8]}
 	}
-	if strings.HasPrefix(a.Sort, "(Array ") && a.T == nil {
+	if strings.HasPrefix(a.Sort, "(Array ") {
 		// spec map/set
-		return Term{S: fmt.Sprintf("(select %s %s)", a.S, i.S), Sort: arrayRange(a.Sort)}
+		var et types.Type
+		if m, ok := a.T.(*types.Map); ok {
+			et = m.Elem()
+		}
+		return Term{S: fmt.Sprintf("(select %s %s)", a.S, i.S), Sort: arrayRange(a.Sort), T: et}
 	}
 	if a.T != nil {
 		switch u := a.T.Underlying().(type) {
@@ -706,6 +718,25 @@ func (v *FnVC) evalCall(e *ECall, env *Env) Term {
 		mt := m.T.Underlying().(*types.Map)
 		d, _, _ := v.mapKeys(mt)
 		return Term{S: fmt.Sprintf("(select %s %s)", v.heapGet(env.st, d), m.S), Sort: fmt.Sprintf("(Array %s Bool)", v.S.SortOf(mt.Key()))}
+	case "fresh": // fresh(x): object x was allocated by the call whose postcondition this is
+		a := v.evalTerm(e.Args[0], env)
+		pre, ok := env.vars["$allocPre"]
+		if !ok {
+			v.fail("fresh() is only meaningful in a callee postcondition")
+		}
+		ref := a.S
+		if a.Sort == "Slice" {
+			ref = fmt.Sprintf("(sarr %s)", a.S)
+		}
+		return boolT(fmt.Sprintf("(>= %s %s)", ref, pre.S))
+	case "elemsOf": // contents of a slice as an array indexed from 0 (slices have offset 0 in the model)
+		a := v.evalTerm(e.Args[0], env)
+		sl, ok := a.T.Underlying().(*types.Slice)
+		if !ok {
+			v.fail("elemsOf of non-slice")
+		}
+		k := v.elemKey(sl.Elem())
+		return Term{S: fmt.Sprintf("(select %s (sarr %s))", v.heapGet(env.st, k), a.S), Sort: fmt.Sprintf("(Array Int %s)", v.S.SortOf(sl.Elem())), T: types.NewMap(types.Typ[types.Int], sl.Elem())}
 	case "chanlen":
 		c := v.evalTerm(e.Args[0], env)
 		k := v.regKey("CH:len", "(Array Int Int)")
@@ -830,6 +861,7 @@ func (v *FnVC) applySpec(sf *SpecFunc, args []Term, env *Env) Term {
 	}
 	if sf.Kind == "rec" {
 		v.queueRec(sf, args, 2)
+		v.recFrameAxiom(sf, fname, sig, specPkg)
 	}
 	return Term{S: app, Sort: rso, T: rt}
 }
@@ -911,16 +943,20 @@ func (v *FnVC) unfoldRec(ra recApp) {
 // emitAxioms asserts the axioms in scope that mention a spec symbol used by this function's VC (demand driven,
 // iterated to a fixpoint because an axiom may bring in further symbols).
 func (v *FnVC) emitAxioms() {
-	axs := v.W.AxiomsFor(v.Fn.Pkg.Pkg)
+	var fpkg *types.Package
+	if v.Fn != nil && v.Fn.Pkg != nil {
+		fpkg = v.Fn.Pkg.Pkg
+	}
+	axs := v.W.AxiomsFor(fpkg)
 	done := map[*Axiom]bool{}
 	for changed := true; changed; {
 		changed = false
 		for _, ax := range axs {
-			if done[ax] {
+			if done[ax] || ax == v.provingLemma {
 				continue
 			}
 			syms := v.W.axiomSymbols(ax)
-			use := len(syms) == 0
+			use := len(syms) == 0 && !ax.IsLemma
 			for _, sname := range syms {
 				if v.S.funcs["sf_"+sanitize(sname)] {
 					use = true
@@ -1048,6 +1084,33 @@ func (v *FnVC) loopEnvAtHeader(h *ssa.BasicBlock, li *LoopInfo) *Env {
 	return env
 }
 
+// localByNameAt: the value of a source-level local just before instruction `before` in block blk.
+func (v *FnVC) localByNameAt(name string, blk *ssa.BasicBlock, before ssa.Instruction, st *State) (Term, bool) {
+	var best ssa.Value
+	var bestAddr bool
+	for _, ins := range blk.Instrs {
+		if ins == before {
+			break
+		}
+		if d, ok := ins.(*ssa.DebugRef); ok && identName(d) == name {
+			best, bestAddr = d.X, d.IsAddr
+		}
+	}
+	if best != nil {
+		if bestAddr {
+			return v.load(st, v.locOf(best)), true
+		}
+		return v.val(best), true
+	}
+	// header phis of the block
+	for _, ins := range blk.Instrs {
+		if p, ok := ins.(*ssa.Phi); ok && p.Comment == name {
+			return v.val(p), true
+		}
+	}
+	return v.localByName(name, blk, st)
+}
+
 // localByName finds the SSA value bound to a source-level local at the entry of block at.
 func (v *FnVC) localByName(name string, at *ssa.BasicBlock, st *State) (Term, bool) {
 	var best ssa.Value
@@ -1117,4 +1180,92 @@ func (v *FnVC) addrOfLocal(name string) (Term, bool) {
 		}
 	}
 	return Term{}, false
+}
+
+// recFrameAxiom: for a recursive spec function f(a Map[int,T], n int, ...) whose body reads a only at index n-1 and
+// recurses on (a, n-1), a store at an index >= n does not change f(a, n, ...). Emitted once per function.
+func (v *FnVC) recFrameAxiom(sf *SpecFunc, fname string, sig []string, specPkg *types.Package) {
+	if v.implFacts["recframe:"+sf.Name] || len(sf.Params) < 2 || !strings.HasPrefix(sf.Params[0].Type, "Map[int,") || sf.Params[1].Type != "int" {
+		return
+	}
+	v.implFacts["recframe:"+sf.Name] = true
+	a, n := sf.Params[0].Name, sf.Params[1].Name
+	ok := true
+	isNm1 := func(e Expr) bool {
+		b, isB := e.(*EBinary)
+		if !isB || b.Op != "-" {
+			return false
+		}
+		x, okx := b.X.(*EIdent)
+		y, oky := b.Y.(*EInt)
+		return okx && oky && x.Name == n && y.V == "1"
+	}
+	var walk func(e Expr)
+	walk = func(e Expr) {
+		switch x := e.(type) {
+		case *EIdent:
+			if x.Name == a {
+				ok = false // bare use of the array
+			}
+		case *EUnary:
+			walk(x.X)
+		case *EBinary:
+			walk(x.X)
+			walk(x.Y)
+		case *ECond:
+			walk(x.C)
+			walk(x.A)
+			walk(x.B)
+		case *ESel:
+			walk(x.X)
+		case *EIndex:
+			if id, isId := x.X.(*EIdent); isId && id.Name == a {
+				if !isNm1(x.I) {
+					ok = false
+				}
+				return
+			}
+			walk(x.X)
+			walk(x.I)
+		case *ECall:
+			if id, isId := x.Fun.(*EIdent); isId && id.Name == sf.Name {
+				if len(x.Args) < 2 {
+					ok = false
+					return
+				}
+				if id0, is0 := x.Args[0].(*EIdent); !is0 || id0.Name != a || !isNm1(x.Args[1]) {
+					ok = false
+				}
+				for _, r := range x.Args[2:] {
+					walk(r)
+				}
+				return
+			}
+			for _, r := range x.Args {
+				walk(r)
+			}
+		case *EQuant:
+			ok = false
+		}
+	}
+	walk(sf.Body)
+	if !ok {
+		v.note("recursive spec function %s over an array does not have the prefix shape; no frame axiom", sf.Name)
+		return
+	}
+	var binds, argsA, argsB []string
+	for i, so := range sig {
+		nm := fmt.Sprintf("fa%d", i)
+		binds = append(binds, fmt.Sprintf("(%s %s)", nm, so))
+		if i == 0 {
+			argsA = append(argsA, "(store fa0 fi fx)")
+		} else {
+			argsA = append(argsA, nm)
+		}
+		argsB = append(argsB, nm)
+	}
+	binds = append(binds, "(fi Int)", fmt.Sprintf("(fx %s)", arrayRange(sig[0])))
+	lhs := fmt.Sprintf("(%s %s)", fname, strings.Join(argsA, " "))
+	rhs := fmt.Sprintf("(%s %s)", fname, strings.Join(argsB, " "))
+	v.asserts = append(v.asserts, fmt.Sprintf("(forall (%s) (! (=> (>= fi fa1) (= %s %s)) :pattern (%s)))", strings.Join(binds, " "), lhs, rhs, lhs))
 }
